@@ -452,3 +452,26 @@ def _place_enum(b, pl):
     while cur.startswith("&"):
         cur = cur[1:].replace("mut ", "", 1).strip()
     return cur if cur in b.facts.adts else None
+
+
+def rule_eof_only_at_block_boundary(cx):
+    """Reader::next may report end-of-log (UnexpectedEof) only when no further bytes could be read;
+    once a record header has been parsed, every failure is damage, never a clean end"""
+    f = cx.f
+    b = f.body("wal::reader::Reader::next")
+    eofs = []
+    for i, j, lhs, rv, line in b.assigns():
+        if rv[0] == "agg" and rv[3] and rv[3].get("adt") == "std::io::ErrorKind" and rv[3].get("variant") == "UnexpectedEof":
+            eofs.append((i, line))
+    cx.floor("UnexpectedEof constructions in Reader::next", len(eofs), 1)
+    rm = sites(cx, b, "wal::reader::Reader::read_more")
+    ph = sites(cx, b, "wal::reader::Reader::parse_header")
+    from ..core import bool_call_condition
+    for i, line in eofs:
+        # reachable only on the `read_more() == false` edge
+        e = result_edges(b, rm[0])
+        r = b.reachable_after([ph[0].bb], avoid={c.bb for c in rm})
+        cx.check(i not in r, "no end-of-log report after a record header was parsed (before the next block read)", "eof-after-header", "%s:%d" % (b.file, line),
+                 "Reader::next reports a clean end-of-log (UnexpectedEof) after it has already parsed a record header: a damaged/torn record is mistaken for the end of the log, "
+                 "recovery silently drops it (also in absolute-consistency mode) and later appends land behind it")
+        cx.check(b.set_dominates([c.bb for c in rm], i), "end-of-log is reported only after trying to read more bytes", "eof-without-read", "%s:%d" % (b.file, line))
